@@ -525,6 +525,12 @@ Definition wrap_body (w : wlayer) (st : fstate) : option (fstate * bool * bool) 
   | _ => None
   end.
 
+(* net.OpError: Error() up to the cause: op [" " net] [" " source] [("->" | " ") addr] *)
+Definition operror_head (op net src addr : str) : str :=
+  op ++ (match net with [] => [] | _ => sp :: net end)
+     ++ (match src with [] => [] | _ => sp :: src end)
+     ++ (match addr with [] => [] | _ => (match src with [] => [sp] | _ => lit "->" end) ++ addr end).
+
 (* Error() of wrapper types, from the cause's record *)
 Definition wrap_text (w : wlayer) (c : nsem) (cause_is_formatter : bool) : str :=
   let cause_v := if cause_is_formatter then final_short c false false else ns_text c in
@@ -536,6 +542,7 @@ Definition wrap_text (w : wlayer) (c : nsem) (cause_is_formatter : bool) : str :
   | WPathError op path => op ++ [sp] ++ path ++ colon_sp ++ ns_text c
   | WLinkError op old new => op ++ [sp] ++ old ++ [sp] ++ new ++ colon_sp ++ ns_text c
   | WSyscallError sc => sc ++ colon_sp ++ ns_text c
+  | WOpError op net src addr => operror_head op net src addr ++ colon_sp ++ ns_text c
   | WUser UWFull msg _ => msg
   | WUser UWEmpty _ _ => ns_text c
   | WUser _ msg _ => msg ++ colon_sp ++ ns_text c
@@ -550,7 +557,7 @@ Definition has_format_method (e : err) : bool :=
   | Leaf _ (LLeafError _) | Leaf _ (LUnimpl _ _ _) => true
   | Leaf _ _ => false
   | Wrap _ (WFmtWrap _) _ | Wrap _ (WPathError _ _) _ | Wrap _ (WLinkError _ _ _) _
-  | Wrap _ (WSyscallError _) _ | Wrap _ (WUser _ _ _) _ => false
+  | Wrap _ (WSyscallError _) _ | Wrap _ (WUser _ _ _) _ | Wrap _ (WOpError _ _ _ _) _ => false
   | Wrap _ _ _ => true
   | Second _ _ _ | Barrier _ _ _ | OLeaf _ _ _ _ | OWrap _ _ _ _ _ => true
   | Multi _ MJoin _ => true
@@ -652,6 +659,17 @@ Definition default_body (e : err) (text : str) (sent : bool) (is_leaf has_multi 
     mkbody (sp_print st [PSafe op; PLit [sp]; PUnsafe path]) true false false
   | Wrap _ (WLinkError op old new) _ =>
     mkbody (sp_print st [PSafe op; PLit [sp]; PUnsafe old; PLit [sp]; PUnsafe new]) true false false
+  | Wrap _ (WOpError op net src addr) _ =>
+    (* p.Print(Safe(Op)); p.Printf(" %s", Safe(Net)); p.Printf(" %s", Source); p.Printf(" ->"); p.Printf(" %s", Addr) *)
+    let s1 := sp_print st [PSafe op] in
+    let s2 := match net with [] => s1 | _ => sp_print s1 [PLit [sp]; PSafe net] end in
+    let s3 := match src with [] => s2 | _ => sp_print s2 [PLit [sp]; PUnsafe src] end in
+    let s4 := match addr with
+              | [] => s3
+              | _ => let s' := match src with [] => s3 | _ => sp_print s3 [PLit (lit " ->")] end in
+                     sp_print s' [PLit [sp]; PUnsafe addr]
+              end in
+    mkbody s4 true false false
   | Leaf _ (LUser ULSafeMsg m _ _) => mkbody (sp_print st [PSafe m]) true true false
   | _ =>
     let '(st1, el) := format_simple st text cause_text in
